@@ -41,6 +41,7 @@ type Op struct {
 	N     int    `json:"n,omitempty"`     // burst: number of datagrams
 	Vary  bool   `json:"vary,omitempty"`  // burst: lengths Len, Len+1, ...
 	To    int    `json:"to,omitempty"`    // write: 0 connected peer, 4 IPv4, 6 IPv6, 46 IPv4 as ::ffff:a.b.c.d ; conn: 4|6|46
+	Fault int    `json:"fault,omitempty"` // write: the link endpoint refuses the frame with 1 no buffer space, 2 would block, 3 aborted
 }
 
 type HistCase struct {
@@ -386,8 +387,32 @@ func (h *hist) write(s *msock, op Op) *evid.Failure {
 		want.src = s.laddr
 	}
 	before := h.w.tap.Len()
+	if op.Fault > 0 {
+		ferr := []*tcpip.Error{tcpip.ErrNoBufferSpace, tcpip.ErrWouldBlock, tcpip.ErrAborted}[mod(op.Fault-1, 3)]
+		h.w.tap.Refuse = func(netsim.Frame) *tcpip.Error { return ferr }
+	}
 	n, _, err := s.sk.EP.Write(tcpip.SlicePayload(payload), wo)
+	h.w.tap.Refuse = nil
 	frames := h.w.tap.Trace()[before:]
+	if op.Fault > 0 {
+		refused := 0
+		for _, f := range frames {
+			if f.Refused {
+				refused++
+			}
+		}
+		if refused > 0 {
+			// "a datagram written is emitted as one packet carrying exactly those bytes, or the write fails"
+			evid.Label("write:frame-refused-by-link")
+			if err == nil {
+				return evid.Failf("write:success-although-not-emitted", "%s: the link endpoint refused the frame (transmit error), nothing was emitted, yet Write reports success (n=%d)", what, n)
+			}
+			if !s.closed {
+				return h.learnLocal(s)
+			}
+			return nil
+		}
+	}
 	if err == nil && op.To == 0 && !s.connected {
 		return evid.Failf("write:no-destination", "Write(%d bytes) without destination on an unconnected socket succeeded", op.Len)
 	}
@@ -793,6 +818,7 @@ func genHist(rt *rapid.T) HistCase {
 			op.Snd = rapid.IntRange(0, 2).Draw(rt, "dsta")
 			op.SPort = rapid.SampledFrom(portPool).Draw(rt, "dstp")
 			op.Len = genLen(rt, maxPayload4, true)
+			op.Fault = rapid.SampledFrom([]int{0, 0, 0, 0, 0, 1, 2, 3}).Draw(rt, "fault")
 			g.bound = true
 		case "conn":
 			if g.cfg.Net == 4 {
